@@ -3,6 +3,7 @@ package main
 // interp.go: symbolic interpreter for Go SSA.
 
 import (
+	"os"
 	"math/big"
 	"fmt"
 	"go/constant"
@@ -76,6 +77,7 @@ type Interp struct {
 	bigConc   map[*Obj]*big.Int // big.Int objects with a concrete (arbitrary precision) value
 	bigOpaque map[*Obj]bool
 	bigField  map[*Obj]*Term // big.Int objects that carry a field value (Element.BigInt / SetBigInt)
+	curFrame  *Frame // most recently executing frame (diagnostics only)
 	sched     *Sched // nil: sequential model (a goroutine runs to completion where it is spawned)
 	transcripts map[*Obj]string // Fiat-Shamir transcripts: everything bound so far (the challenge is a function of it)
 	memoTerms map[string][]*Term // deterministic opaque functions (canonical encodings, SetBytes): same argument terms, same result
@@ -119,6 +121,9 @@ type Failure struct {
 }
 
 func (in *Interp) progPanic(msg string) {
+	if os.Getenv("GOSYM_PANIC_LOC") != "" && in.curFrame != nil && in.curFrame.fn != nil {
+		msg += " @ " + in.curFrame.fn.String()
+	}
 	panic(&ProgPanic{Val: msg, Msg: msg})
 }
 
@@ -427,6 +432,7 @@ func (in *Interp) execBlocks(fr *Frame, block *ssa.BasicBlock) Val {
 		for _, instr := range block.Instrs[len(phis):] {
 			in.steps++
 			fr.cur = instr
+			in.curFrame = fr
 			if in.steps > in.cfg.MaxSteps {
 				panic(abort("unwind", "step budget exceeded"))
 			}
